@@ -22,8 +22,15 @@ class HarnessError(Exception):
     """Raised by a harness action on purpose (user code failing in the middle of an event)."""
 
 
+def _noop():
+    return None
+
+
 class HarnessAction:
     __slots__ = ('run', 'label', 'nested')
+
+    def __deepcopy__(self, memo):
+        return _noop          # (in a copy of the Environment the harness's actions do nothing)
 
     def __init__(self, run, label, nested):
         self.run = run
@@ -35,6 +42,14 @@ class HarnessAction:
         r.exec_log.append((self.label, r.env.now))
         if self.nested:
             for op in self.nested:
+                if op[0] == 'snapshot':
+                    # a checkpoint taken from inside the running simulation: the Environment is deep-copied (and the
+                    # copy thrown away); the original must not notice
+                    import copy
+                    with instrument.probing():
+                        copy.deepcopy(r.env)
+                    r.sh.count('snapshots_taken_inside_an_action')
+                    continue
                 if op[0] == 'raise':
                     # only when the caller drives the queue with step() and is prepared to catch
                     if r.step_driven:
@@ -184,7 +199,7 @@ FRACTIONAL = [1.5, 2.5, 4.5, 5.5, 6.5, 7.5, 10.5, 11.5]
 BIG_BASES = [2 ** 53, 1_700_000_000_000_000_000, 2 ** 60 + 1]
 
 
-def random_ops(rng, decimal=False, pause_centric=False, aim_pauses=False, bigint=False):
+def random_ops(rng, decimal=False, pause_centric=False, aim_pauses=False, bigint=False, mass=False):
     """A random operation sequence of length 10-80."""
     grid = [0, 0, 0.125, 0.25, 0.5, 1, 1, 1.5, 2, 3]
     if decimal:
@@ -200,6 +215,9 @@ def random_ops(rng, decimal=False, pause_centric=False, aim_pauses=False, bigint
         out = []
         for _ in range(rng.choice([0, 0, 1, 1, 2])):
             x = rng.random()
+            if x < 0.03 and depth == 0:
+                out.append(['snapshot'])
+                continue
             if x < 0.06 and depth == 0 and not bigint:
                 # the action fails after what it has done so far (possibly a pause)
                 out.append(['raise', rng.choice(['err', 'err', 'kbd'])])
@@ -223,6 +241,26 @@ def random_ops(rng, decimal=False, pause_centric=False, aim_pauses=False, bigint
         ops.append(['run', base])
     ops.append(['sched', rng.choice(assets), rng.choice(grid[2:]), rng.choice(prios), None])
     ops.append(['run', rng.choice(grid[2:])])
+    if mass:
+        # scale: one asset with 70-200 pending events, paused in two batches at different instants (events scheduled in
+        # between) and resumed by one call; another asset with well over a hundred cancelled events still queued
+        a, b = 1, 2
+        g = [x for x in grid if x] or [1]
+        for _ in range(rng.randint(70, 130)):
+            ops.append(['sched', a, 10 * max(g) + rng.choice(g) * rng.randint(1, 40), rng.choice(prios), None])
+        ops.append(['pause', a])
+        ops.append(['run', rng.choice(g)])
+        for _ in range(rng.randint(40, 90)):
+            ops.append(['sched', a, 10 * max(g) + rng.choice(g) * rng.randint(1, 40), rng.choice(prios), None])
+        for _ in range(rng.randint(110, 160)):
+            ops.append(['sched', b, 1000 * max(g) + rng.choice(g) * rng.randint(1, 9), rng.choice(prios), None])
+        ops.append(['run', rng.choice(g) * 3])
+        ops.append(['pause', a])
+        ops.append(['cancel', b])
+        ops.append(['sched', b, rng.choice(g), 5, None])
+        ops.append(['run', rng.choice(g) * 2])
+        ops.append(['unpause', a])
+        ops.append(['run', rng.choice(g)])
     if aim_pauses:
         # Pause an asset exactly at the instant one of its events is due, early in the run, and
         # resume it after a pause much longer than the time elapsed so far: this is where
@@ -286,6 +324,8 @@ def random_ops(rng, decimal=False, pause_centric=False, aim_pauses=False, bigint
             ops.append(['unpause', a])
             ops.append(['run', rng.choice(grid[1:])])
     ops.append(['run', rng.choice(grid[3:])])
+    if mass:
+        ops.append(['run', 60 * max(x for x in grid if x)])       # long enough for every resumed event
     return ops
 
 
